@@ -246,7 +246,7 @@ structure Ctx where
   names : Names
   /-- HASH_LOGS=SYNC per ledger id -/
   sync : Nat → Bool
-  /-- known transactions: id ↦ (src pair, dst pair, srcFirst, amount, dst is world) -/
+  /-- known transactions: `txKey ledger id` ↦ (src pair, dst pair, srcFirst, amount, dst is world) -/
   postings : List (Nat × Nat × Nat × Bool × Nat × Bool)
   /-- the revert UPDATE carries `reverted_at is null` (always, on the unchanged code) -/
   guarded : Bool := true
@@ -293,12 +293,15 @@ def mkSend (cx : Ctx) (c : Case) (r : JReq) : Ctx × Send :=
      allow := allow, ik := ik, hash := h, ref := rf, accts := accts, legs := legs,
      readPairs := if multi then readPairs else [], dsAll := if multi then dsAll else [] })
 
+/-- key of a known transaction: ids are per ledger -/
+def txKey (l tx : Nat) : Nat := l * 100000007 + tx
+
 def mkRevert (cx : Ctx) (c : Case) (r : JReq) : Ctx × Revert :=
   let n := cx.names
   let l := n.ledger (ledgerOf c r)
   let (n, ik) := n.ik r.ik
   let (n, h) := n.hash (inputText r)
-  let (src, dst, srcFirst, amt, dstWorld) := ((cx.postings.lookup r.txid).getD (0, 0, true, 0, false))
+  let (src, dst, srcFirst, amt, dstWorld) := ((cx.postings.lookup (txKey l r.txid)).getD (0, 0, true, 0, false))
   ({ cx with names := n },
    { l := l, sync := cx.sync l, tx := r.txid, src := src, dst := dst, srcFirst := srcFirst, amt := amt,
      dstWorld := dstWorld, force := r.force, guarded := cx.guarded, ik := ik, hash := h })
@@ -495,13 +498,13 @@ def runModel (c : Case) (guarded : Bool := true) : ModelRun :=
     -- remember the posting of every transaction created (for reverts)
     let cx := if real.err ≠ "" then cx else
       match r.kind with
-      | "send" => let (cx, p) := postingOf cx (ledgerOf c r) r; { cx with postings := (real.tx, p) :: cx.postings }
+      | "send" => let (cx, p) := postingOf cx (ledgerOf c r) r; { cx with postings := (txKey l real.tx, p) :: cx.postings }
       | "revert" =>
-        match cx.postings.lookup r.txid with
+        match cx.postings.lookup (txKey l r.txid) with
         | some (src, dst, sf, amt, _) =>
           -- the revert transaction moves `amt` from dst back to src
           let newDstWorld := ((cx.names.pairs[src - 1]?).map (fun (nm : String) => decide ((nm.splitOn "|world/").length > 1))).getD false
-          { cx with postings := (real.tx, (dst, src, !sf, amt, newDstWorld)) :: cx.postings }
+          { cx with postings := (txKey l real.tx, (dst, src, !sf, amt, newDstWorld)) :: cx.postings }
         | none => cx
       | _ => cx
     let _ := l
